@@ -166,3 +166,38 @@ PROPS["C18"] = {'assumptions': ["the transport delivers the client's result code
               'endpoint check at volume) and through the whole client and server exchanges with filesystem snapshots',
  'trusted': ['os.Root / kernel (mkdir, rmdir, lstat), user.LookupId, net.SplitHostPort and net.Addr.String are parameters of the model (any outcome); regex, '
              'filepath and net.ParseIP are transcribed as byte-level recognisers and compared with the real ones on every run']}
+
+PROPS["C11"] = {'assumptions': ['HMAC-SHA1/HMAC-SHA256/HKDF-SHA256 are unforgeable / one-way (terms are free)',
+                 'crypto/rand nonces are fresh',
+                 'the wall clock does not step backwards during one exchange'],
+ 'engines': ['token'],
+ 'lean': 'CedarProps.C11',
+ 'level_note': "Symbolic crypto (free constructors) in the theorems, real HMAC/HKDF in the correspondence; JSON/base64 decoding is Go's (Env); time claims "
+               "beyond +-4e18 (Go's float->int64 conversion is platform-defined) are compared with the model but carry no property claim; the client's choice "
+               'among several token sources (TokenFile/TokenDir, issuer filtering) is outside the model - only the directly configured token is driven; '
+               'SessionKey derivation (hkdf of the public RB) is not part of C11; strings in the exchange are NUL-free (C strings).',
+ 'level_text': 'server_accept_iff (accept <=> message 1 = OK,id,token,RA with no trailing bytes; token of two segments under a held key, now < exp, iat >= now '
+               "- maxAge, non-empty string sub; message 3 = OK, id = sub, RB echo = own RB, proof = HMAC_K(sub|0|RB) with K derived from the server's own "
+               'recomputation of the token signature, no trailing bytes; recorded identity = user part of sub, independent of the announced id), '
+               'identity_from_token, possession_server / possession_client (a peer whose proof bytes are terms it can build knows the signature or relays a '
+               "proof over this run's fresh nonce), refused_stays_refused / client_refused_stays_refused (stored errors are final although the comparison key "
+               'is then empty), server_proof_only_for_valid_token, client_accept_iff, no_reflection, verify_accepts_exactly (VerifyIDToken accepts <=> 3 '
+               'segments, held key for kid, signature = sign(key, header.payload), time claims valid now, non-empty sub), '
+               'verify_accepts_what_the_exchange_accepts: kernel-checked for ALL decoders/term readings (Env), frames and key stores. Tied to the code by '
+               'engine token: security.PerformTokenAuthenticationDemo (both roles) and VerifyIDToken against a scripted peer over an in-memory connection: '
+               '~110 server, ~60 client, ~40 verify single deviations (every check of the three messages, token bit flips incl. every single bit of short '
+               'tokens, other/unknown/unreadable keys, kid forms, exp/iat at the boundary relative to the wall clock, max-age sources, announced id vs sub, '
+               'wrong/truncated/empty/reflected/mis-keyed proofs, echoes, status codes, trailing bytes, missing EOM, truncation, frame cuts), '
+               'refused-message-1 followed by the publicly computable proof, pairs of deviations, malformed byte streams; verdict, error class, recorded '
+               'identity and the messages the implementation sends compared with the model; property oracle recomputes the required proof with the reference '
+               'crypto.',
+ 'oracle_engine': {'token': 'token'},
+ 'technique': 'Lean 4 theorems (accept-iff characterisations of server, client and VerifyIDToken obtained by inverting every monadic step of the transcribed '
+              'functions; Dolev-Yao possession corollaries over free MAC/signature terms; concrete necessity witnesses by kernel evaluation) + correspondence '
+              "of the real client/server/VerifyIDToken against scripted peers performing the property's single-field deviations",
+ 'trusted': ['symbolic (Dolev-Yao) AEAD/hash: seal/H are free constructors (INT-CTXT, collision-freeness idealised; DESIGN §3); for C11: Sig/MKey/Mac terms '
+             '(HMAC-SHA256 over HKDF = token signature, HKDF with the HTCondor seed = MAC key, HMAC-SHA1 = proofs), adversary = CanSend closure',
+             'token_ref.go: independent reference of the IDTOKEN/AKEP2 cryptography and message layout (Go crypto/hmac, sha1, sha256; HKDF by hand) used to '
+             'play the scripted peer and to name proof bytes as terms',
+             'Go encoding/base64 + encoding/json + strings.Split/TrimSpace: JWT segments reach the model already decoded (Env tables: kid, exp/iat/sub, '
+             'signature term)']}
